@@ -10,15 +10,21 @@
 #include "hcommon.hpp"
 #include "openup.hpp"
 #include <fix8/f8includes.hpp>
-#include "utest_types.hpp"
-#include "utest_router.hpp"
-#include "utest_classes.hpp"
+#ifndef SCHEMA_NS			// default: the unit-test schema FIX42UTEST; -DSCHEMA_NS=FIX44 -DSCHEMA_TYPES='"fix44_types.hpp"' ... selects another one
+#define SCHEMA_NS UTEST
+#define SCHEMA_TYPES "utest_types.hpp"
+#define SCHEMA_ROUTER "utest_router.hpp"
+#define SCHEMA_CLASSES "utest_classes.hpp"
+#endif
+#include SCHEMA_TYPES
+#include SCHEMA_ROUTER
+#include SCHEMA_CLASSES
 #include <cxxabi.h>
 #include <typeinfo>
 using namespace FIX8;
 
 static std::string cstr(const char *p) { return p ? std::string(p) : std::string(); }
-static const F8MetaCntx& C() { return UTEST::ctx(); }
+static const F8MetaCntx& C() { return SCHEMA_NS::ctx(); }
 
 static std::string exname(const std::exception& e)
 {
